@@ -23,8 +23,8 @@
 //   - `x = make([]Element, n)` rebinds a local slice name to a fresh zero array; `t = make([][]Element, k)` to a table of k rows.
 //   - primitives of the fft package whose TEXT (domain.go) is compared with the expected text on every run:
 //     BuildExpTable(w, table)      table := [1, w^1, w^1·w, (w^1·w)·w, …]   (len(table) ≤ 352: the sequential branch
-//                                  precomputeExpTableChunk(w, 1, table[1:]) is taken whatever runtime.NumCPU() is, since
-//                                  interval ≤ len(table)-1 < ratioExpMul = 352)
+//     precomputeExpTableChunk(w, 1, table[1:]) is taken whatever runtime.NumCPU() is, since
+//     interval ≤ len(table)-1 < ratioExpMul = 352)
 //     buildTwiddles(t, w, k)       t[0] := BuildExpTable(w, 1 + 2^(k-1) entries), t[i][j] := t[0][j·2^i] for j ≤ 2^(k-1-i)
 //     and of the base package: Vector.ScalarMul(a, b) = element-wise a[i]·b   [scalarMulVecGeneric]
 package main
@@ -532,10 +532,10 @@ func checkTopText(cfg towerPkg) {
 	// domain.go
 	path := filepath.Join(repo, cfg.dir, "domain.go")
 	check(path, funcTexts(path, true), map[string]want{
-		"type Domain": {"", "struct { Cardinality uint64 CardinalityInv ELEM Generator ELEM GeneratorInv ELEM FrMultiplicativeGen ELEM FrMultiplicativeGenInv ELEM withPrecompute bool twiddles [][]ELEM twiddlesInv [][]ELEM cosetTable []ELEM cosetTableInv []ELEM }"},
-		"BuildExpTable": {"func(w ELEM, table []ELEM)", "{ table[0].SetOne() n := len(table) interval := 0 if runtime.NumCPU() >= 4 { interval = (n - 1) / (runtime.NumCPU() / 4) } const ratioExpMul = 6000 / 17 if interval < ratioExpMul { precomputeExpTableChunk(w, 1, table[1:]) return } var wg sync.WaitGroup for i := 1; i < n; i += interval { start := i end := i + interval if end > n { end = n } wg.Add(1) go func() { precomputeExpTableChunk(w, uint64(start), table[start:end]) wg.Done() }() } wg.Wait() }"},
+		"type Domain":             {"", "struct { Cardinality uint64 CardinalityInv ELEM Generator ELEM GeneratorInv ELEM FrMultiplicativeGen ELEM FrMultiplicativeGenInv ELEM withPrecompute bool twiddles [][]ELEM twiddlesInv [][]ELEM cosetTable []ELEM cosetTableInv []ELEM }"},
+		"BuildExpTable":           {"func(w ELEM, table []ELEM)", "{ table[0].SetOne() n := len(table) interval := 0 if runtime.NumCPU() >= 4 { interval = (n - 1) / (runtime.NumCPU() / 4) } const ratioExpMul = 6000 / 17 if interval < ratioExpMul { precomputeExpTableChunk(w, 1, table[1:]) return } var wg sync.WaitGroup for i := 1; i < n; i += interval { start := i end := i + interval if end > n { end = n } wg.Add(1) go func() { precomputeExpTableChunk(w, uint64(start), table[start:end]) wg.Done() }() } wg.Wait() }"},
 		"precomputeExpTableChunk": {"func(w ELEM, power uint64, table []ELEM)", "{ if len(table) > 0 { table[0].Exp(w, new(big.Int).SetUint64(power)) for i := 1; i < len(table); i++ { table[i].Mul(&table[i-1], &w) } } }"},
-		"buildTwiddles": {"func(t [][]ELEM, omega ELEM, nbStages uint64)", "{ if nbStages == 0 { return } if len(t) != int(nbStages) { panic(\"invalid twiddle table\") } t[0] = make([]ELEM, 1+(1<<(nbStages-1))) BuildExpTable(omega, t[0]) for i := uint64(1); i < nbStages; i++ { t[i] = make([]ELEM, 1+(1<<(nbStages-i-1))) k := 0 for j := 0; j < len(t[i]); j++ { t[i][j] = t[0][k] k += 1 << i } } }"},
+		"buildTwiddles":           {"func(t [][]ELEM, omega ELEM, nbStages uint64)", "{ if nbStages == 0 { return } if len(t) != int(nbStages) { panic(\"invalid twiddle table\") } t[0] = make([]ELEM, 1+(1<<(nbStages-1))) BuildExpTable(omega, t[0]) for i := uint64(1); i < nbStages; i++ { t[i] = make([]ELEM, 1+(1<<(nbStages-i-1))) k := 0 for j := 0; j < len(t[i]); j++ { t[i][j] = t[0][k] k += 1 << i } } }"},
 	})
 	// bitreverse.go: BitReverse reaches bitReverseNaive directly or through bitReverseCobra
 	path = filepath.Join(repo, cfg.dir, "bitreverse.go")
